@@ -135,7 +135,14 @@ fn run_one(target: &str, corpus: &Path, artifacts: &Path, runs: u64, seed: u64, 
     let _ = std::fs::create_dir_all(artifacts);
     let mut prefix = artifacts.to_string_lossy().to_string();
     prefix.push('/');
-    let out = Command::new(binary(target))
+    let mut cmd = Command::new(binary(target));
+    // fork + exec instead of vfork / posix_spawn: with a shared address space the child's peak-RSS counter
+    // (ru_maxrss, which libFuzzer's -rss_limit_mb reads) starts at the *parent's* peak, and a parent that
+    // has just run a memory-hungry proptest stream would make every fuzz process stop with "oom" at once
+    unsafe {
+        std::os::unix::process::CommandExt::pre_exec(&mut cmd, || Ok(()));
+    }
+    let out = cmd
         .arg(corpus)
         .arg(format!("-runs={runs}"))
         .arg(format!("-seed={}", (seed % 0xffff_fffe) + 1)) // 0 would mean "random"
@@ -336,7 +343,11 @@ fn exec_single(target: &str, input: &[u8], dir: &Path) -> (bool, Option<String>)
     let mut prefix = dir.join("single-art").to_string_lossy().to_string();
     let _ = std::fs::create_dir_all(&prefix);
     prefix.push('/');
-    let out = Command::new(binary(target)).arg(&f).arg(format!("-artifact_prefix={prefix}")).arg("-timeout=120").arg("-rss_limit_mb=6144").env("RUST_BACKTRACE", "0").stdin(Stdio::null()).output();
+    let mut cmd = Command::new(binary(target));
+    unsafe {
+        std::os::unix::process::CommandExt::pre_exec(&mut cmd, || Ok(()));
+    }
+    let out = cmd.arg(&f).arg(format!("-artifact_prefix={prefix}")).arg("-timeout=120").arg("-rss_limit_mb=6144").env("RUST_BACKTRACE", "0").stdin(Stdio::null()).output();
     let _ = std::fs::remove_file(&f);
     match out {
         Ok(o) if !o.status.success() => {
